@@ -1,7 +1,9 @@
 package harness
 
 import (
+	"fmt"
 	"math/big"
+	"net/netip"
 	"strings"
 
 	"pgregory.net/rapid"
@@ -21,6 +23,10 @@ func malformOrigin(t *rapid.T, o string) Val {
 		host, port = rest[:i], rest[i+1:]
 	}
 	withPort := func(p string) string { return sch + "://" + host + ":" + p }
+	if ip, err := netip.ParseAddr(strings.TrimSuffix(strings.TrimPrefix(host, "["), "]")); err == nil && chance(t, "respellip", 35) {
+		// the same address spelled differently: not the listed origin (hosts are compared byte for byte)
+		return V(sch + "://" + respellIP(t, ip) + orStr2(port))
+	}
 	switch uniform(t, "malform", 45) {
 	case 42, 43, 44:
 		// one ASCII letter replaced by a non-ASCII letter that Unicode case mapping/folding sends back to it
@@ -114,6 +120,57 @@ func malformOrigin(t *rapid.T, o string) Val {
 	default:
 		return V(sch + "://" + strings.ToUpper(host[:1]) + host[1:] + orStr2(port))
 	}
+}
+
+// respellIP returns another textual form of the same IP address (or of the address it embeds / is embedded in).
+func respellIP(t *rapid.T, ip netip.Addr) string {
+	return pick(t, "ipform", ipRespellings(ip))
+}
+
+// ipRespellings lists other textual forms of the same IP address (or of the address it embeds / is embedded in):
+// none of them is the canonical form, so none of them is the host of a listed pattern.
+func ipRespellings(ip netip.Addr) []string {
+	if ip.Is4() {
+		b := ip.As4()
+		u := uint32(b[0])<<24 | uint32(b[1])<<16 | uint32(b[2])<<8 | uint32(b[3])
+		hi, lo := u>>16, u&0xffff
+		return []string{
+			fmt.Sprintf("[::ffff:%d.%d.%d.%d]", b[0], b[1], b[2], b[3]),
+			fmt.Sprintf("[::ffff:%x:%x]", hi, lo),
+			fmt.Sprintf("[0:0:0:0:0:ffff:%x:%x]", hi, lo),
+			fmt.Sprintf("[::%d.%d.%d.%d]", b[0], b[1], b[2], b[3]),
+			fmt.Sprintf("[::%x:%x]", hi, lo),
+			fmt.Sprintf("%d", u),
+			fmt.Sprintf("0x%x", u),
+			fmt.Sprintf("0x%x.0x%x.0x%x.0x%x", b[0], b[1], b[2], b[3]),
+			fmt.Sprintf("0%o.%d.%d.%d", b[0], b[1], b[2], b[3]),
+			fmt.Sprintf("%d.%d.%d", b[0], b[1], uint32(b[2])<<8|uint32(b[3])),
+			fmt.Sprintf("%d.%d", b[0], u&0xffffff),
+			fmt.Sprintf("%d.%d.%d.%d.", b[0], b[1], b[2], b[3]),
+			fmt.Sprintf("%d.%d.%d.0%d", b[0], b[1], b[2], b[3]),
+			fmt.Sprintf("%03d.%d.%d.%d", b[0], b[1], b[2], b[3]),
+		}
+	}
+	b := ip.As16()
+	h := func(i int) uint16 { return uint16(b[2*i])<<8 | uint16(b[2*i+1]) }
+	forms := []string{
+		"[" + ip.StringExpanded() + "]",
+		"[" + strings.ToUpper(ip.StringExpanded()) + "]",
+		fmt.Sprintf("[%x:%x:%x:%x:%x:%x:%x:%x]", h(0), h(1), h(2), h(3), h(4), h(5), h(6), h(7)),
+		fmt.Sprintf("[%x:%x:%x:%x:%x:%x:%d.%d.%d.%d]", h(0), h(1), h(2), h(3), h(4), h(5), b[12], b[13], b[14], b[15]),
+		"[" + ip.String() + "%eth0]",
+		"[" + ip.String() + "%25eth0]",
+		"[" + ip.String() + "%]",
+		ip.String(),
+		"[0" + ip.StringExpanded() + "]",
+	}
+	if up := strings.ToUpper(ip.String()); up != ip.String() {
+		forms = append(forms, "["+up+"]")
+	}
+	if ip.Is4In6() {
+		forms = append(forms, ip.Unmap().String(), "[::ffff:"+ip.Unmap().String()+"]")
+	}
+	return forms
 }
 
 func orStr(s, d string) string {
